@@ -1,6 +1,6 @@
 (* C03 — the compiled reader is observationally equivalent to the interpreted reader. *)
 From Coq Require Import Lia.
-From VF Require Import Model.Reader Model.Writer Model.Compiler Proofs.ArrayProps Proofs.BlockProps Proofs.ShiftProps Proofs.CompilerProps Proofs.CompilerGaps Proofs.CompilerStatic Gen.GeneratedOk.
+From VF Require Import Model.Reader Model.Writer Model.Compiler Proofs.ArrayProps Proofs.BlockProps Proofs.ShiftProps Proofs.CompilerProps Proofs.CompilerGaps Proofs.CompilerStatic Proofs.CompilerAligned Gen.GeneratedOk.
 Open Scope string_scope. Open Scope list_scope. Open Scope Z_scope.
 
 (* The source generator of compiler.py is modelled in Model/Compiler.v: a PLAN (seek / align / reset / sub-reader / bit-field / block instructions)
@@ -82,6 +82,18 @@ Theorem compiled_static_reader_is_interpreted_reader : forall c fuel al nm fs p,
   compile_plan c al fs = Ok p ->
   forall s pos ctx, 0 <= pos -> req (read_compiled c fuel al fs s pos) (read_ty c fuel (TStruct nm fs al) s pos ctx).
 Proof. exact compiled_static_is_interpreted. Qed.
+(* THE PROPERTY for ALIGNED structures with DYNAMICALLY SIZED members, no bit fields (`adcls`: scalars and fixed arrays of scalars of positive size;
+   members with a reader of their own of any size - nested structures and unions, arrays of them, expression-counted, null-terminated and to-end
+   arrays; alignments of at least 1).  Up to the first dynamically sized member the layout gives offsets and the generator reads padded blocks and
+   sub-readers behind seeks; after it no member has an offset, the generator flushes in front of every member, aligns the stream at run time
+   (forgetting where it is), reads scalars in blocks of one and calls the readers of the others - exactly what the interpreted reader does.  `agaps`
+   states the shape of the layout's offsets (checked by computation in the example) and that the static part ends below 2^63. *)
+Theorem compiled_aligned_dynamic_reader_is_interpreted_reader : forall c fuel nm fs p,
+  Forall (adcls c fuel) fs -> NoDup (map f_name fs) ->
+  (forall lay, layout_struct c true fs = Ok lay -> agaps c 9223372036854775807 0 (set_offsets fs (l_offs lay))) ->
+  compile_plan c true fs = Ok p ->
+  forall s pos ctx, 0 <= pos -> req (read_compiled c fuel true fs s pos) (read_ty c fuel (TStruct nm fs true) s pos ctx).
+Proof. exact compiled_aligned_dynamic_is_interpreted. Qed.
 Theorem sub_readers_of_the_position_class_qualify : forall c fuel f, shift_ok [] c (f_ty f) = true -> (forall n, ty_size c (f_ty f) = Some n -> 0 <= n) -> sub_ok c fuel f.
 Proof. exact sub_ok_of_shift. Qed.
 
@@ -91,6 +103,7 @@ Print Assumptions compiled_reader_is_interpreted_reader.
 Print Assumptions padded_block_reads_memberwise.
 Print Assumptions compiled_aligned_reader_is_interpreted_reader.
 Print Assumptions compiled_static_reader_is_interpreted_reader.
+Print Assumptions compiled_aligned_dynamic_reader_is_interpreted_reader.
 Print Assumptions block_unpack_is_fieldwise.
 Print Assumptions any_grouping_into_blocks_is_fieldwise.
 Print Assumptions fieldwise_is_the_interpreted_loop.
@@ -190,4 +203,31 @@ Example exs_run : let s := map Z.of_nat (seq 1 60) in
   read_compiled exc_cfg 50 true exs_fs s 0 = read_ty exc_cfg 50 (TStruct "m" exs_fs true) s 0 [] /\
   (exists v, read_compiled exc_cfg 50 true exs_fs s 0 = Ok (v, 48)) /\
   (exists er, read_compiled exc_cfg 50 true exs_fs (firstn 47 s) 0 = Err er) /\ (exists er, read_ty exc_cfg 50 (TStruct "m" exs_fs true) (firstn 47 s) 0 [] = Err er).
+Proof. cbv zeta. split; [vm_compute; reflexivity|]. split; [eexists; vm_compute; reflexivity|]. split; eexists; vm_compute; reflexivity. Qed.
+
+(* an aligned structure with dynamically sized members: a counted array, then members without offsets (run-time alignment in front of each) *)
+Definition exd_fs := [Fld "n" false (TPrim (PInt 1 false true) 1) None None; Fld "w" false (TPrim (PInt 4 false true) 4) None None;
+                      Fld "d" false (TArr (TPrim (PInt 2 false true) 2) (LExpr ["n"] false)) None None; Fld "t" false (TPrim (PInt 4 false true) 4) None None;
+                      Fld "s" false (TArr (TPrim PChar 1) LNull) None None; Fld "z" false (TPrim (PInt 2 false true) 2) None None; Fld "k" false (TPrim (PInt 1 false true) 1) None None].
+Example exd_class : Forall (adcls exc_cfg 50) exd_fs /\ NoDup (map f_name exd_fs) /\
+  (forall lay, layout_struct exc_cfg true exd_fs = Ok lay -> agaps exc_cfg 9223372036854775807 0 (set_offsets exd_fs (l_offs lay))) /\ exists p, compile_plan exc_cfg true exd_fs = Ok p.
+Proof.
+  split; [|split; [|split]].
+  - repeat (apply Forall_cons; [split; [reflexivity|]; split; [split; [reflexivity|];
+        first [ left; split; [vm_compute; discriminate|vm_compute; split; [reflexivity|discriminate]]
+              | right; split; [reflexivity|]; split; [reflexivity|]; apply sub_ok_of_shift; [vm_compute; reflexivity|intros n H; vm_compute in H; try discriminate; injection H as <-; lia] ]
+        | vm_compute; discriminate]|]).
+    apply Forall_nil.
+  - cbn. repeat constructor; cbn; intuition discriminate.
+  - intros lay H. vm_compute in H. injection H as <-. cbn [l_offs set_offsets exd_fs agaps f_off f_ty]. vm_compute. repeat split; try discriminate; repeat constructor.
+  - eexists. vm_compute. reflexivity.
+Qed.
+Example exd_plan : (do p <- compile_plan exc_cfg true exd_fs; Ok (skel p)) =
+  Ok [SBlock 8 [(1, "B"); (3, "x"); (1, "I")] true [("n", GData 0, 1); ("w", GData 1, 4)]; SSub "d"; SAlignTo 4; SBlock 4 [(1, "I")] true [("t", GData 0, 4)];
+      SAlignTo 1; SSub "s"; SAlignTo 2; SBlock 2 [(1, "H")] true [("z", GData 0, 2)]; SAlignTo 1; SBlock 1 [(1, "B")] true [("k", GData 0, 1)]; SAlignTail].
+Proof. vm_compute. reflexivity. Qed.
+Example exd_run : let s := [2; 0; 0; 0; 1; 0; 0; 0; 5; 0; 6; 0; 9; 0; 0; 0; 97; 98; 0; 0; 7; 0; 3; 0; 0; 0] in
+  read_compiled exc_cfg 50 true exd_fs s 0 = read_ty exc_cfg 50 (TStruct "m" exd_fs true) s 0 [] /\
+  (exists v, read_compiled exc_cfg 50 true exd_fs s 0 = Ok (v, 24)) /\
+  (exists er, read_compiled exc_cfg 50 true exd_fs (firstn 22 s) 0 = Err er) /\ (exists er, read_ty exc_cfg 50 (TStruct "m" exd_fs true) (firstn 22 s) 0 [] = Err er).
 Proof. cbv zeta. split; [vm_compute; reflexivity|]. split; [eexists; vm_compute; reflexivity|]. split; eexists; vm_compute; reflexivity. Qed.
